@@ -52,7 +52,7 @@ def parked (s : St) : List String :=
     | .r _ => [s!"R:c{n}"] | .rc => [s!"R:c{n}"] | _ => []
   let us := (s.unotifs.zipIdx 0).flatMap fun (nf, k) => notifParked (.unotif k) nf
   let xs := s.cnotifs.flatMap fun (n, nf) => notifParked (.cnotif n) nf
-  let rs := (s.reqs.zipIdx 0).flatMap fun (q, r) =>
+  let rs := (s.cores.zipIdx 0).flatMap fun (q, r) =>
     match q.pc with
     | .a1 => [s!"A1:r{r}"] | .a2 => [s!"A2:r{r}"] | .running => [s!"H:r{r}"] | .p1 => [s!"P1:r{r}"]
     | .w1 => [s!"W1:r{r}"] | .wr => [s!"WR:r{r}"] | .w2 _ => [s!"W2:r{r}"] | .p2 => [s!"P2:r{r}"]
@@ -85,7 +85,7 @@ def finished (s : St) : List String :=
   sortStr (cs ++ us) ++ [s!"close:{s.closeFin}", s!"wait:{s.waitFin.length}"]
 
 def cancelledSet (s : St) : List String :=
-  (s.reqs.zipIdx 0).filterMap fun (q, r) =>
+  (s.metas.zipIdx 0).filterMap fun (q, r) =>
     match q.seen, q.cancelled with
     | true, some .read => some s!"r{r}:r"
     | true, some .write => some s!"r{r}:w"
